@@ -590,6 +590,9 @@ func (c *Context) Respond(rw http.ResponseWriter, r *http.Request, produces []st
 		producers := c.api.ProducersFor(normalizeOffers(offers))
 		prod, ok := producers[format]
 		if !ok {
+			prod, ok = producers[normalizeOffer(format)]
+		}
+		if !ok {
 			panic(errors.New(http.StatusInternalServerError, cantFindProducer(format)))
 		}
 		if err := prod.Produce(rw, data); err != nil {
@@ -605,7 +608,12 @@ func (c *Context) Respond(rw http.ResponseWriter, r *http.Request, produces []st
 		}
 
 		producers := route.Producers
+		// producers is keyed by normalized media types: a format carrying parameters,
+		// such as `text/plain; charset=utf-8`, must be looked up as `text/plain`
 		prod, ok := producers[format]
+		if !ok {
+			prod, ok = producers[normalizeOffer(format)]
+		}
 		if !ok {
 			if !ok {
 				prods := c.api.ProducersFor(normalizeOffers([]string{c.api.DefaultProduces()}))
